@@ -95,11 +95,11 @@ Definition dump (l : list str) : str :=
   end.
 
 (* ---------- include.py: inline ---------- *)
-(* include_re = \s*%include\s+(['"]?)(.*?)(['"]?)\s*$  : Some (q1, match, q2) *)
+(* include_re: whitespace, %include, whitespace+, optional quote q1, shortest match,
+   optional quote q2, whitespace, end of line  : Some (q1, match, q2) *)
 Definition txt_include : str := [37;105;110;99;108;117;100;101].   (* %include *)
 Definition is_quote (c : Z) : bool := (c =? c_sq) || (c =? c_dq).
-Fixpoint drop (n : nat) (s : str) : str :=
-  match n, s with O, _ => s | S k, _ :: r => drop k r | S _, [] => [] end.
+Definition drop (n : nat) (s : str) : str := skipn n s.
 
 Definition include_match (line : str) : option (Z * str * Z) :=
   let l1 := lstrip line in
@@ -129,22 +129,23 @@ Fixpoint inline (fuel : nat) (fs : files) (lines : list str) : res (list str) :=
   match fuel with
   | O => Err EFuel
   | S f =>
-      match lines with
-      | [] => Ok []
-      | line :: rest =>
-          match include_match line with
-          | None => rmap (cons line) (inline (S f) fs rest)
-          | Some (q1, name, q2) =>
-              if negb (q1 =? 0) && negb (q1 =? q2) then Err EIncludeQuotes
-              else
-                match assoc str_eqb name fs with
-                | None => Err EIncludeNotFound
-                | Some text =>
-                    rbind (inline f fs (split_lines text)) (fun inc =>
-                    rmap (app inc) (inline (S f) fs rest))
-                end
-          end
-      end
+      (fix go (ls : list str) : res (list str) :=
+         match ls with
+         | [] => Ok []
+         | line :: rest =>
+             match include_match line with
+             | None => rmap (cons line) (go rest)
+             | Some (q1, name, q2) =>
+                 if negb (q1 =? 0) && negb (q1 =? q2) then Err EIncludeQuotes
+                 else
+                   match assoc str_eqb name fs with
+                   | None => Err EIncludeNotFound
+                   | Some text =>
+                       rbind (inline f fs (split_lines text)) (fun inc =>
+                       rmap (app inc) (go rest))
+                   end
+             end
+         end) lines
   end.
 
 (* ---------- Jinja2 ---------- *)
@@ -173,12 +174,13 @@ Fixpoint cat (pending : option str) (lines : list str) : res (list str) :=
   match lines with
   | [] => match pending with None => Ok [] | Some p => Ok [strip_bs p] end
   | l :: r =>
-      let start := if bad_continuation l then Err EContinuation else cat (Some l) r in
+      let start := fun _ : unit =>
+        if bad_continuation l then Err EContinuation else cat (Some l) r in
       match pending with
-      | None => start
+      | None => start tt
       | Some p =>
           if ends_bs p then cat (Some (removelast p ++ l)) r
-          else rmap (cons p) start
+          else rmap (cons p) (start tt)
       end
   end.
 Definition concatenate (lines : list str) : res (list str) := cat None lines.
@@ -207,7 +209,7 @@ Fixpoint set_item (items : list (str * node)) (key : str) (n : node) (replace : 
       else (k, v) :: set_item r key n replace
   end.
 
-Fixpoint set_path (fuel : nat) (items : list (str * node)) (parents : list str) (key : str)
+Fixpoint set_path (items : list (str * node)) (parents : list str) (key : str)
   (n : node) (replace : bool) : res (list (str * node)) :=
   match parents with
   | [] => Ok (set_item items key n replace)
@@ -218,13 +220,9 @@ Fixpoint set_path (fuel : nat) (items : list (str * node)) (parents : list str) 
          | (k, v) :: r =>
              if str_eqb k p then
                match v with
-               | Sect sub =>
-                   match fuel with
-                   | O => Err EFuel
-                   | S f => rmap (fun sub' => (k, Sect sub') :: r) (set_path f sub ps key n replace)
-                   end
+               | Sect sub => rmap (fun sub' => (k, Sect sub') :: r) (set_path sub ps key n replace)
                | Leaf _ => if replace then Err EParse else Err EUnsupported
-                           (* addict: "already encountered"; addsect: TypeError *)
+                           (* addict: already encountered; addsect: TypeError *)
                end
              else rmap (cons (k, v)) (walk r)
          end) items
@@ -232,16 +230,20 @@ Fixpoint set_path (fuel : nat) (items : list (str * node)) (parents : list str) 
 
 Definition is_ascii_word (c : Z) : bool :=
   ((48 <=? c) && (c <=? 57)) || ((65 <=? c) && (c <=? 90)) || ((97 <=? c) && (c <=? 122)) || (c =? 95).
-(* [\w+\-:.,!/()^$ ] restricted to ASCII; non-ASCII in key position is Unsupported *)
+(* the key character class: word characters and + - : . , ! / ( ) ^ $ space.  Word
+   characters beyond ASCII are only known for a few letters (233, 223, 26085, 26412);
+   any other non-ASCII character in key position makes the line Unsupported *)
+Definition known_letter (c : Z) : bool := (c =? 233) || (c =? 223) || (c =? 26085) || (c =? 26412).
 Definition is_key_char (c : Z) : bool :=
-  is_ascii_word c || (c =? 43) || (c =? 45) || (c =? 58) || (c =? 46) || (c =? 44) || (c =? 33) ||
+  is_ascii_word c || known_letter c ||
+  (c =? 43) || (c =? 45) || (c =? 58) || (c =? 46) || (c =? 44) || (c =? 33) ||
   (c =? 47) || (c =? 40) || (c =? 41) || (c =? 94) || (c =? 36) || (c =? 32).
 
-(* after a closing triple quote: \s*(#.*)?$ *)
+(* after a closing triple quote: optional whitespace, then end of line or a comment *)
 Definition comment_or_end (s : str) : bool :=
   match lstrip s with [] => true | c :: _ => c =? c_hash end.
 
-(* does [s] contain [q q q] followed by \s*(#.*)?$ ; and does it contain q q q at all *)
+(* does [s] contain [q q q] followed by whitespace and end-or-comment; does it contain q q q at all *)
 Fixpoint closes (q : Z) (s : str) : bool :=
   match s with
   | [] => false
@@ -253,7 +255,8 @@ Fixpoint has_triple (q : Z) (s : str) : bool :=
   | c :: r => starts_with [q; q; q] s || has_triple q r
   end.
 
-(* heading: ^(\s*)(\[+)\s*(.+?)\s*(\]+)\s*(#.*)?$  -> (open count, name, close count) *)
+(* _HEADING: indentation, a run of '[', whitespace, the shortest non-empty name,
+   whitespace, a run of ']', whitespace, end-or-comment -> (open count, name, close count) *)
 Fixpoint count_run (c : Z) (s : str) : nat * str :=
   match s with
   | x :: r => if x =? c then let '(n, t) := count_run c r in (S n, t) else (O, s)
@@ -284,14 +287,30 @@ Inductive lineclass :=
 | LUnsupported.
 
 (* key: the run of key characters after the indentation, without its trailing
-   spaces, followed by \s*= ; keys with <parameters> are Unsupported *)
+   spaces, optionally followed by whitespace and <parameters>, then whitespace and '=' *)
 Fixpoint key_run (s : str) : str * str :=
   match s with
   | c :: r => if is_key_char c then let '(k, t) := key_run r in (c :: k, t) else ([], s)
   | [] => ([], [])
   end.
-Fixpoint all_ascii (s : str) : bool :=
-  match s with [] => true | c :: r => (c <? 128) && all_ascii r end.
+Fixpoint span_ws (s : str) : str * str :=
+  match s with
+  | c :: r => if is_space c then let '(w, t) := span_ws r in (c :: w, t) else ([], s)
+  | [] => ([], [])
+  end.
+Definition starts_eq (s : str) : bool :=
+  match lstrip s with c :: _ => c =? c_eq | [] => false end.
+(* [s] starts with '<': the shortest <...> after which whitespace and '=' follow *)
+Fixpoint param_end (s : str) : option (str * str) :=
+  match s with
+  | [] => None
+  | c :: r =>
+      if (c =? c_gt) && starts_eq r then Some ([c], r)
+      else match param_end r with
+           | Some (p, rest) => Some (c :: p, rest)
+           | None => None
+           end
+  end.
 
 Definition classify (line : str) : lineclass :=
   let l1 := lstrip line in
@@ -308,23 +327,30 @@ Definition classify (line : str) : lineclass :=
             | nm => LHeading nopen nm nclose
             end
         | None =>
-            (* not a heading: could still be a key = value line only if '[' were a key
-               character, which it is not *)
-            LInvalid
+            (* no ']' at all: neither a heading nor (as '[' is no key character) an item;
+               otherwise the regex could still backtrack in ways not modelled *)
+            if has_char c_rb l1 then LUnsupported else LInvalid
         end
       else
         let '(k, t) := key_run l1 in
-        let key := rstrip k in
-        let t1 := lstrip t in
+        let '(w, t1) := span_ws t in
         match t1 with
         | x :: v =>
-            if negb (all_ascii k) then LUnsupported
-            else if x =? c_eq then
-              match key with
+            if x =? c_eq then
+              match rstrip k with
               | [] => LUnsupported
-              | _ => LItem key (lstrip v)
+              | key => LItem key (lstrip v)
               end
-            else if x =? c_lt then LUnsupported
+            else if x =? c_lt then
+              match rstrip k, param_end t1 with
+              | [], _ => LUnsupported
+              | _, None => LInvalid
+              | _, Some (p, rest) =>
+                  match lstrip rest with
+                  | _ :: v' => LItem (k ++ w ++ p) (lstrip v')
+                  | [] => LInvalid
+                  end
+              end
             else if x <? 128 then LInvalid else LUnsupported
         | [] => LInvalid
         end
@@ -353,9 +379,6 @@ Definition item_value (v : str) (rest : list str) : res (str * list str) :=
   | [] => Ok (v, rest)
   end.
 
-Fixpoint take (n : nat) {A} (l : list A) : list A :=
-  match n, l with O, _ => [] | S k, x :: r => x :: take k r | S _, [] => [] end.
-
 Definition graph_section (parents : list str) : bool :=
   match parents with
   | a :: b :: _ =>
@@ -365,13 +388,13 @@ Definition graph_section (parents : list str) : bool :=
   | _ => false
   end.
 
-Fixpoint has_key (items : list (str * node)) (parents : list str) (key : str) (fuel : nat) : bool :=
+Fixpoint has_key (items : list (str * node)) (parents : list str) (key : str) : bool :=
   match parents with
   | [] => match assoc str_eqb key items with Some _ => true | None => false end
   | p :: ps =>
-      match assoc str_eqb p items, fuel with
-      | Some (Sect sub), S f => has_key sub ps key f
-      | _, _ => false
+      match assoc str_eqb p items with
+      | Some (Sect sub) => has_key sub ps key
+      | _ => false
       end
   end.
 
@@ -395,12 +418,12 @@ Fixpoint parse_loop (fuel : nat) (lines : list str) (level : nat) (parents : lis
                   if Nat.eqb nb level then Some (removelast parents ++ [name])
                   else if Nat.eqb nb (S level) then Some (parents ++ [name])
                   else if Nat.ltb nb level
-                       then Some (take (List.length parents - (level - nb) - 1) parents ++ [name])
+                       then Some (firstn (List.length parents - (level - nb) - 1) parents ++ [name])
                   else None in
                 match newparents with
                 | None => Err EParse
                 | Some ps =>
-                    match set_path (S (List.length ps)) cfg (removelast ps) name (Sect []) false with
+                    match set_path cfg (removelast ps) name (Sect []) false with
                     | Ok cfg' => parse_loop f rest nb ps cfg'
                     | Err e => Err e
                     end
@@ -409,10 +432,10 @@ Fixpoint parse_loop (fuel : nat) (lines : list str) (level : nat) (parents : lis
               match item_value v rest with
               | Err e => Err e
               | Ok (value, rest') =>
-                  if graph_section parents && has_key cfg parents key (S (List.length parents))
+                  if graph_section parents && has_key cfg parents key
                   then Err EUnsupported
                   else
-                    match set_path (S (List.length parents)) cfg parents key (Leaf value) true with
+                    match set_path cfg parents key (Leaf value) true with
                     | Ok cfg' => parse_loop f rest' level parents cfg'
                     | Err e => Err e
                     end
@@ -500,4 +523,11 @@ Definition check_case (c : case) : bool :=
   match model_lines2 c with
   | Some r => cfg_agrees (rbind r parse_lines) (c_cfg2 c)
   | None => true
+  end.
+
+(* statistics helper: is the source's configuration inside the parser fragment? *)
+Definition parser_supported (c : case) : bool :=
+  match rbind (model_lines1 c) parse_lines with
+  | Err EUnsupported => false
+  | _ => true
   end.
